@@ -77,6 +77,11 @@ pub fn run_probe(spec: &str, args: &[OsString]) -> Option<String> {
     let hex = it.next()?;
     let bytes: Vec<u8> = (0..hex.len() / 2).map(|i| u8::from_str_radix(&hex[2 * i..2 * i + 2], 16).unwrap()).collect();
     let name: &'static str = Box::leak(String::from_utf8(bytes).ok()?.into_boxed_str());
+    if kind == "help" {
+        // `probe:help:<hex utf8>`: a switch whose help text is the given string; full help (`--help --help`)
+        let p = short('a').long("alpha").help(name).switch().to_options();
+        return Some(show(p.run_inner(&["--help", "--help"])));
+    }
     let named = || match kind {
         "short" => short(name.chars().next().unwrap()),
         _ => long(name),
@@ -90,4 +95,4 @@ pub fn run_probe(spec: &str, args: &[OsString]) -> Option<String> {
     Some(format!("{}\t{}", show(with_val.run_inner(args)), show(as_flag.run_inner(args))))
 }
 
-corpus!(g1, g2, g3, p1, p2, p3, p4, p5, c1, c2, c3, v1, v2, v3, o1, o2, a1, a2, a3, e1, j1, k1, k2, h1, h2, kc, k3, k4, c4, g4, o3, a4, pt, pp, k5, hd, c5, c6, c7, c8, am, c9, f1, f2, un, hr, k6, gh, f3, x1, x2, x4, pj, kv, p6);
+corpus!(g1, g2, g3, p1, p2, p3, p4, p5, c1, c2, c3, v1, v2, v3, o1, o2, a1, a2, a3, e1, j1, k1, k2, h1, h2, kc, k3, k4, c4, g4, o3, a4, pt, pp, k5, hd, c5, c6, c7, c8, am, c9, f1, f2, un, hr, k6, gh, f3, x1, x2, x4, pj, kv, p6, cr, fc);
